@@ -49,8 +49,8 @@ theorem strip_preserves_mix (c : Cfg) (o : POpts) (hG : GenStrip c o) (hM : MixO
 
 /-- **R1 for every class but I+T+C**: any of the 15 `peek` variants (no flag, I, L, T, I+L, I+T, L+T, I+L+T, and these
 with C) on the integer and fraction component except I+T+C; any of the 15 on the exponent component. -/
-theorem strip_preserves_all (c : Cfg) (o : POpts) (hG : GenStrip c o) (hI : c.skip .integer ≠ .pred .itc)
-    (hF : c.skip .fraction ≠ .pred .itc) (s : List Nat) (hb : ∀ x ∈ s, x < 256) (fv : Bool) (n : Number) (cnt : Nat)
+theorem strip_preserves_all (c : Cfg) (o : POpts) (hG : GenStrip c o) (hI : c.skip .integer ≠ .pred .itc ∨ Fix.itc = true)
+    (hF : c.skip .fraction ≠ .pred .itc ∨ Fix.itc = true) (s : List Nat) (hb : ∀ x ∈ s, x < 256) (fv : Bool) (n : Number) (cnt : Nat)
     (f : Fmt) (h : parseFloatSyntax c o false s fv = .ok (.number n cnt)) :
     ∃ n', parseFloatSyntax c o false (nonSep c s) fv = .ok (.number n' (nonSep c s).length) ∧ NumRel c n n' ∧
       numberBits c f n' = numberBits c f n := by
@@ -65,8 +65,8 @@ theorem strip_preserves_all (c : Cfg) (o : POpts) (hG : GenStrip c o) (hI : c.sk
 iterator) — then `s` is accepted as the same number, with the same value. Any separator predicates (integer /
 fraction not I+T+C, through `Rescan`). `NonStuck` is exactly what "every separator of `s` is at a position the flags
 enable" has to deliver; it holds for free for I+L+T+C components (`insert_preserves_seps`). -/
-theorem insert_preserves_gen (c : Cfg) (o : POpts) (hG : GenStrip c o) (hI : c.skip .integer ≠ .pred .itc)
-    (hF : c.skip .fraction ≠ .pred .itc) (s : List Nat) (hb : ∀ x ∈ s, x < 256) (hP : NoSepBeforeSign c s)
+theorem insert_preserves_gen (c : Cfg) (o : POpts) (hG : GenStrip c o) (hI : c.skip .integer ≠ .pred .itc ∨ Fix.itc = true)
+    (hF : c.skip .fraction ≠ .pred .itc ∨ Fix.itc = true) (s : List Nat) (hb : ∀ x ∈ s, x < 256) (hP : NoSepBeforeSign c s)
     (hNS : NonStuck c o s) (fv : Bool) (n' : Number) (cnt : Nat) (f : Fmt)
     (h : parseFloatSyntax c o false (nonSep c s) fv = .ok (.number n' cnt)) :
     ∃ n, parseFloatSyntax c o false s fv = .ok (.number n s.length) ∧ NumRel c n n' ∧
@@ -81,7 +81,7 @@ no digit, no sign, not the decimal point, also up to the case folding the parser
 in the I+L+T+C components, except directly before a sign, keep the input accepted as the same number. With all three
 components I+L+T+C this is `insert_preserves` of `Props/C13.lean`; with no-flag components it is the mixed class. -/
 theorem insert_preserves_seps (c : Cfg) (o : POpts) (hG : GenStrip c o) (hO : OptsOK c o)
-    (hI : c.skip .integer ≠ .pred .itc) (hF : c.skip .fraction ≠ .pred .itc) (s : List Nat) (hb : ∀ x ∈ s, x < 256)
+    (hI : c.skip .integer ≠ .pred .itc ∨ Fix.itc = true) (hF : c.skip .fraction ≠ .pred .itc ∨ Fix.itc = true) (s : List Nat) (hb : ∀ x ∈ s, x < 256)
     (hP : NoSepBeforeSign c s) (hS : SepsOnlyIn c o s) (fv : Bool) (n' : Number) (cnt : Nat) (f : Fmt)
     (h : parseFloatSyntax c o false (nonSep c s) fv = .ok (.number n' cnt)) :
     ∃ n, parseFloatSyntax c o false s fv = .ok (.number n s.length) ∧ NumRel c n n' ∧
@@ -96,13 +96,29 @@ before and after it (through separators): needs I; only after: L; only before: T
 (`DocEnabledAt`, docs/DigitSeparators.md). Then: if the stripped input is accepted as a number, so is `s`, as the same
 number with the same value. (`Proof/SepEnable*.lean`: an enabled run is skipped by every one of the 15 `peek`
 variants — `enabled_holds` —, hence no iterator stops on a separator.) -/
-theorem insert_preserves_doc (c : Cfg) (o : POpts) (hG : GenStrip c o) (hI : c.skip .integer ≠ .pred .itc)
-    (hF : c.skip .fraction ≠ .pred .itc) (s : List Nat) (hb : ∀ x ∈ s, x < 256) (hP : NoSepBeforeSign c s)
+theorem insert_preserves_doc (c : Cfg) (o : POpts) (hG : GenStrip c o) (hI : c.skip .integer ≠ .pred .itc ∨ Fix.itc = true)
+    (hF : c.skip .fraction ≠ .pred .itc ∨ Fix.itc = true) (s : List Nat) (hb : ∀ x ∈ s, x < 256) (hP : NoSepBeforeSign c s)
     (hD : DocEnabled c o s) (fv : Bool) (n' : Number) (cnt : Nat) (f : Fmt)
     (h : parseFloatSyntax c o false (nonSep c s) fv = .ok (.number n' cnt)) :
     ∃ n, parseFloatSyntax c o false s fv = .ok (.number n s.length) ∧ NumRel c n n' ∧
       numberBits c f n = numberBits c f n' :=
   insert_preserves_gen c o hG hI hF s hb hP (nonStuck_of_docEnabled c o hG s hD) fv n' cnt f h
+
+/-- **with the repair `Fix.itc` (fixes/C13-sep-itc-accepts-leading.diff) R1 holds without any flag exclusion** -/
+theorem strip_preserves_all_fixed (hfix : Fix.itc = true) (c : Cfg) (o : POpts) (hG : GenStrip c o) (s : List Nat)
+    (hb : ∀ x ∈ s, x < 256) (fv : Bool) (n : Number) (cnt : Nat) (f : Fmt)
+    (h : parseFloatSyntax c o false s fv = .ok (.number n cnt)) :
+    ∃ n', parseFloatSyntax c o false (nonSep c s) fv = .ok (.number n' (nonSep c s).length) ∧ NumRel c n n' ∧
+      numberBits c f n' = numberBits c f n :=
+  strip_preserves_all c o hG (Or.inr hfix) (Or.inr hfix) s hb fv n cnt f h
+
+/-- … and so does R3 under the documented position rules -/
+theorem insert_preserves_doc_fixed (hfix : Fix.itc = true) (c : Cfg) (o : POpts) (hG : GenStrip c o) (s : List Nat)
+    (hb : ∀ x ∈ s, x < 256) (hP : NoSepBeforeSign c s) (hD : DocEnabled c o s) (fv : Bool) (n' : Number) (cnt : Nat)
+    (f : Fmt) (h : parseFloatSyntax c o false (nonSep c s) fv = .ok (.number n' cnt)) :
+    ∃ n, parseFloatSyntax c o false s fv = .ok (.number n s.length) ∧ NumRel c n n' ∧
+      numberBits c f n = numberBits c f n' :=
+  insert_preserves_doc c o hG (Or.inr hfix) (Or.inr hfix) s hb hP hD fv n' cnt f h
 
 /-- `GenStrip` for the concrete formats `cfgOf bits` (radix 10, `_`, STANDARD flags) with the default options -/
 theorem genStrip_cfgOf (bits : Nat) (hreach : ∀ k, (cfgOf bits).skip k ≠ .unreachable)
